@@ -2,7 +2,7 @@
    In the model every Rust panic site is an explicit `Panic n` result and every loop whose recursion is
    not structural runs on explicit fuel with an `OutOfFuel` result; `total r` says r is Ok or Err. *)
 From UL Require Import Bytes Subtags LangId Ext Likely Inst Grammar LangIdSpec SubtagProofs LangIdProofs ExtProofs
-                       TablesData LikelyProofs LayoutData DirectionProofs Sites.
+                       TablesData LikelyProofs LayoutData DirectionProofs Sites Ops LocaleInv OpsInvProofs OpsTotal.
 
 Theorem C01_language : forall s, total (language_from_bytes s).
 Proof. intros s. rewrite language_spec. destruct (lang_tok s); auto with tot. Qed.
@@ -41,6 +41,15 @@ Proof. exact t_loop_total. Qed.
 Theorem C01_fuel_dispatch : forall fuel su st acc toks, (length toks < fuel)%nat -> total (dispatch fuel su st acc toks).
 Proof. exact dispatch_total. Qed.
 
+(* the getters and setters as OPERATIONS on a value (and maximize / minimize as methods): from any state that
+   satisfies the safe-API invariant - default(), any parsed value, any state reached by public mutations
+   (C10_inv) - no call panics, whatever key / value / attribute / tag bytes it is given; along every history *)
+Theorem C01_step_no_panic : forall s o s' w, loc_inv s = true -> step the_tables s o = Some (s', w) -> w <> OutPanic.
+Proof. exact (step_no_panic the_tables data_full_extend data_wf_ints). Qed.
+Theorem C01_history_no_panic : forall ops s steps, loc_inv s = true -> run the_tables s ops = Some steps ->
+  forallb (fun p => match snd p with OutPanic => false | _ => true end) steps = true.
+Proof. exact (run_no_panic the_tables data_full_extend data_wf_ints). Qed.
+
 (* likely-subtags and direction queries: total for every well-formed (language, script, region) *)
 Theorem C01_maximize : forall l s r, wf_triple l s r = true -> exists o, maximize the_tables l s r = Ok o.
 Proof. exact (maximize_total the_tables data_full_extend data_wf_ints). Qed.
@@ -57,6 +66,8 @@ Theorem C01_sites_covered : panic_sites_covered = true.
 Proof. exact sites_covered. Qed.
 
 Print Assumptions C01_sites_covered.
+Print Assumptions C01_step_no_panic.
+Print Assumptions C01_history_no_panic.
 Print Assumptions C01_language.
 Print Assumptions C01_script.
 Print Assumptions C01_region.
